@@ -23,7 +23,7 @@ type C05Case struct {
 var _ = Register("C05", func() interface{} { return new(C05Case) }, func(c interface{}) string { return c05Oracle(c.(*C05Case)) })
 
 var c05Decl = &GenCfg{Depth: 1, Fanout: 2, SubOpt: 100, CmdPct: 50, Aliases: true, MaxOpts: 3, MaxGroups: 2, NestGroups: 4, Kinds: append(append([]Kind{}, AllArgKinds...), KBool, KBoolSlice, KBoolPtr),
-	Ns: true, EnvNs: true, Req: 0, Choices: true, Defaults: true, Initial: true, Bases: true, NonASCII: true, NsDelims: []string{"-"}, FieldPool: true, InCode: 15}
+	Ns: true, EnvNs: true, Req: 0, Choices: true, Defaults: true, Initial: true, Bases: true, NonASCII: true, NsDelims: []string{"-"}, FieldPool: true, InCode: 15, ViaAdd: 5}
 
 func genC05(t *rapid.T) *C05Case {
 	d := genDecl(t, c05Decl)
@@ -118,7 +118,7 @@ func genC05(t *rapid.T) *C05Case {
 				} else {
 					raw = iniValueFor(o, valFor(o, "iniVal"), false)
 				}
-				l := IniLine{Section: section, Key: o.Field, Value: raw}
+				l := IniLine{Section: section, Key: iniKeyOf(o), Value: raw}
 				if r := RefIni(d, []IniLine{l}); r.ErrKind == "" {
 					c.Lines = append(c.Lines, l)
 				}
